@@ -35,24 +35,22 @@ def integer_batch(spec, cfg, rng):
     return None
 
 
-def one(rep: Report, rng: Rng, spec: Spec, cfg0: dict, st: str, mag: int):
-    cfg = fresh_cfg(cfg0)
-    cfg["_v"] = 0.99      # unweighted variant of every generator
+def measure(spec: Spec, cfg: dict, st: str, mag: int, warm, bs):
+    """the property's oracle on one case: state `st` of a metric warmed by `warm` is replaced by `mag` through load_state_dict,
+    `bs` are applied to it and to a fresh instance warmed the same way; the accumulator must equal injected + the fresh
+    instance's increase, exactly.  returns a string (reason the case is outside the comparison) or a dict with
+    got / want / delta / inj / dtype / ok.  Used by the sweep and by replay()."""
     m = new_metric(spec, cfg)
     if not hasattr(m, st):
-        return
-    bs = [integer_batch(spec, cfg, rng) for _ in range(rng.randint(1, 3))]
-    if any(b is None for b in bs):
-        return
-    warm = integer_batch(spec, cfg, rng)
+        return "no such state"
     warm.apply(m)                       # establishes state shapes
     base = m.state_dict()
     cur = base[st]
     if not isinstance(cur, torch.Tensor):
-        return
+        return "state is not a tensor"
     inj = torch.full_like(cur, float(mag)) if cur.is_floating_point() else torch.full_like(cur, mag)
     if inj.to(torch.float64).max().item() != float(mag):
-        return    # magnitude not representable in this dtype at all
+        return "magnitude not representable in this dtype at all"
     base[st] = inj
     m.load_state_dict(base)
     fresh = new_metric(spec, cfg)
@@ -60,24 +58,41 @@ def one(rep: Report, rng: Rng, spec: Spec, cfg0: dict, st: str, mag: int):
     f0 = getattr(fresh, st).to(torch.float64).clone()
     for b in bs:
         if try_update(m, b) is not None or try_update(fresh, b) is not None:
-            return
+            return "an update raised"
     delta = getattr(fresh, st).to(torch.float64) - f0
     got = getattr(m, st).to(torch.float64)
     want = inj.to(torch.float64) + delta
     if not torch.equal(delta, delta.round()):
         # a sum of non-integer sample VALUES (Mean.weighted_sum, Sum, MSE's squared error …) is not a count:
         # injected + delta need not be representable at all; rounding of value sums is C07's subject, not C19's
-        rep.count("skipped:non-integer-statistic")
+        return "skipped:non-integer-statistic"
+    return {"got": got, "want": want, "delta": delta, "inj": inj, "dtype": cur.dtype, "ok": torch.equal(got, want)}
+
+
+def one(rep: Report, rng: Rng, spec: Spec, cfg0: dict, st: str, mag: int):
+    cfg = fresh_cfg(cfg0)
+    cfg["_v"] = 0.99      # unweighted variant of every generator
+    if not hasattr(new_metric(spec, cfg), st):
         return
-    rep.count(f"dtype:{cur.dtype}"); rep.count(f"mag:2^{mag.bit_length()-1}")
+    bs = [integer_batch(spec, cfg, rng) for _ in range(rng.randint(1, 3))]
+    if any(b is None for b in bs):
+        return
+    warm = integer_batch(spec, cfg, rng)
+    r = measure(spec, cfg, st, mag, warm, bs)
+    if isinstance(r, str):
+        if r.startswith("skipped:"):
+            rep.count(r)
+        return
+    got, want, delta, dtype = r["got"], r["want"], r["delta"], r["dtype"]
+    rep.count(f"dtype:{dtype}"); rep.count(f"mag:2^{mag.bit_length()-1}")
     nontriv = bool((delta != 0).any())
     rep.case(nontrivial_key=(spec.name, st, mag, repr(delta.tolist())) if nontriv else None,
-             sample={"class": spec.name, "state": st, "dtype": str(cur.dtype), "injected": mag, "delta": delta.reshape(-1).tolist()[:6]} if rep.evaluations % 97 == 0 else None)
-    if not torch.equal(got, want):
-        kind = str(cur.dtype).replace("torch.", "")
+             sample={"class": spec.name, "state": st, "dtype": str(dtype), "injected": mag, "delta": delta.reshape(-1).tolist()[:6]} if rep.evaluations % 97 == 0 else None)
+    if not r["ok"]:
+        kind = str(dtype).replace("torch.", "")
         rep.violation(f"C19|{spec.name}|{st}|{kind}-saturates",
                       f"{spec.name}.{st} ({kind}) injected {mag}, statistics of the added samples {delta.reshape(-1).tolist()[:6]}: accumulator is {got.reshape(-1).tolist()[:6]} instead of {want.reshape(-1).tolist()[:6]}",
-                      {"class": spec.name, "cfg": public_cfg(cfg), "state": st, "injected": mag, "batches": [b.describe() for b in bs],
+                      {"class": spec.name, "cfg": public_cfg(cfg), "state": st, "injected": mag, "warm": warm.describe(), "batches": [b.describe() for b in bs],
                        "got": got.reshape(-1).tolist(), "want": want.reshape(-1).tolist()})
 
 
@@ -100,3 +115,26 @@ def run(rep: Report):
 
 def search(rep: Report):
     sweep(rep, Rng(rep.seed * 3 + 1919), 4, time.time() + 120)
+
+
+def replay(payload) -> bool:
+    """True iff the property holds on the recorded case (class, state, injected magnitude, warm-up batch, batches): the
+    accumulator after the batches equals injected + their statistics, judged by `measure` (the sweep's oracle)."""
+    rp = payload.get("replay") or {}
+    if payload.get("kind", "failing-input") != "failing-input" or not {"class", "state", "injected", "batches"} <= set(rp):
+        raise ValueError(f"nothing to replay: payload kind {payload.get('kind')!r} carries no case (class, state, injected, batches)")
+    from ..registry import BY_NAME, Batch
+    spec, cfg = BY_NAME[rp["class"]], dict(rp.get("cfg") or {})
+    bs = [Batch.from_describe(d) for d in rp["batches"]]
+    if not bs:
+        raise ValueError("nothing to replay: no batches recorded")
+    # payloads written before the warm-up batch was recorded: it only establishes the state shapes (its own statistics
+    # are replaced by the injected value and subtracted on the fresh side), any recorded batch serves
+    warm = Batch.from_describe(rp["warm"]) if rp.get("warm") else bs[0]
+    r = measure(spec, cfg, rp["state"], int(rp["injected"]), warm, bs)
+    if isinstance(r, str):
+        raise ValueError(f"nothing to replay: the case is outside the comparison on this tree ({r})")
+    if not r["ok"]:
+        print(f"replay: {spec.name}.{rp['state']} ({str(r['dtype']).replace('torch.', '')}) injected {rp['injected']}, statistics of the added samples "
+              f"{r['delta'].reshape(-1).tolist()[:6]}: accumulator is {r['got'].reshape(-1).tolist()[:6]} instead of {r['want'].reshape(-1).tolist()[:6]}")
+    return bool(r["ok"])
